@@ -266,3 +266,21 @@ Lemma eval_all r body x it :
               | None => rerr end
   | Err z => Err z end.
 Proof. reflexivity. Qed.
+
+(* ---------- sixth group ---------- *)
+Lemma exec_while r fuel c body :
+  exec r (SWhile fuel c body) = while_loop fuel (fun r => eval r c) (fun r => exec_block r body) r.
+Proof.
+  cbn [exec]. revert r. induction fuel as [|k IH]; intros r; cbn [while_loop].
+  - destruct (eval r c); reflexivity.
+  - destruct (eval r c) as [v|]; [|reflexivity]. destruct (truthy v); [|reflexivity].
+    rewrite exec_block_inner. destruct (exec_block r body) as [[r' [w|]]|]; [|apply IH|reflexivity].
+    destruct (is_cont w); [apply IH | reflexivity].
+Qed.
+Lemma exec_dictappend r x k e : exec r (SDictAppend x k e) = st_dictappend r x (eval r k) (eval r e).
+Proof. reflexivity. Qed.
+Lemma exec_remove r x e : exec r (SRemove x e) = st_remove r x (eval r e).
+Proof. reflexivity. Qed.
+Lemma exec_append' r x e : exec r (SAppend x e) = match lookup x r, eval r e with
+  | Some (VL l), Ok v => Ok (assign x (VL (l ++ [v])) r, None) | _, Err z => Err z | _, _ => rerr end.
+Proof. reflexivity. Qed.
